@@ -133,7 +133,7 @@ class Model(object):
         self.fix_suspended_exit = fix_suspended_exit
         self.cap = None
         for path, value in program.get("inits", []):
-            self.shares[path] = {"fields": {"value": value}, "stamp": None}
+            self.shares[path] = {"fields": dict(value) if isinstance(value, dict) else {"value": value}, "stamp": None}
         for fa in program["framers"]:
             fr = MFramer(fa)
             self.framers[fr.name] = fr
@@ -166,7 +166,7 @@ class Model(object):
                 for n in needs:
                     if n["t"] in ("cmp", "bool"):
                         s = self.share(n["path"])
-                        s["fields"].setdefault("value", 0.0)
+                        s["fields"].setdefault(n.get("field") or "value", 0.0)
                     if n["t"] in ("updated", "changed"):
                         self.share(n["path"])
                         key = self.mark_key(fr, f, n)
@@ -204,7 +204,7 @@ class Model(object):
     def need(self, fr, f, n):
         t = n["t"]
         if t == "cmp":
-            r = self.check(self.share(n["path"])["fields"].get("value"), n["op"], n["goal"], n.get("tol"))
+            r = self.check(self.share(n["path"])["fields"].get(n.get("field") or "value"), n["op"], n["goal"], n.get("tol"))
         elif t == "bool":
             r = bool(self.share(n["path"])["fields"].get("value"))
         elif t == "elapsed":
@@ -288,6 +288,12 @@ class Model(object):
         elif k == "copy":
             s = self.share(a["path"])
             s["fields"]["value"] = self.share(a["src"])["fields"].get("value")
+            s["stamp"] = self.now
+        elif k == "copyf":       # simultaneous positional transfer: every source is read before any destination is written
+            vals = [self.share(a["src"])["fields"].get(f) for f in a["sf"]]
+            s = self.share(a["path"])
+            for f, v in zip(a["df"], vals):
+                s["fields"][f] = v
             s["stamp"] = self.now
         elif k == "bid":
             for who in a["who"]:
